@@ -20,7 +20,7 @@ SHARD_DEADLINE = {'quick': 300, 'thorough': 3300}
 
 def floors(tier):
     f = {'distinct_nontrivial': 6000 if tier == 'quick' else 100000, 'identity_ip_sp_lc_rc': 800, 'identity_cp_acp_gp': 800,
-         'permuted_order_cases': 500, 'swapped_pair_followups': 300, 'high_grade_blade_cases': 100}
+         'permuted_order_cases': 500, 'swapped_pair_followups': 300, 'high_grade_blade_cases': 100, 'wrapper_configured_cases': 500, 'reflected_entry_point_cases': 100}
     for o in OPS7:
         f['generic_' + o] = 800
     return f
@@ -55,6 +55,8 @@ def plan(tier, seed):
         for s in (0, 2):
             U += u({'p': 1, 'q': 1, 'r': 1, 'start_index': s}, 'random', 1, count=14, cap=8)
         U += u(dict({'p': 2, 'q': 0, 'r': 1}, opts={'cse': False}), 'random', 1, count=20, cap=8)
+        for c, w in zip(rng.sample(d2, 2) + rng.sample(d3, 3), ('wraps', 'identity', 'wraps', 'wraps', 'identity')):
+            U += u(dict(c, opts={'wrapper': w}), 'sparse', 1, count=30, cap=4, perm=0.6, min_size=2)
         nshards = 16
     else:
         for c in gen.sig_orderings(1, 1):
@@ -80,6 +82,8 @@ def plan(tier, seed):
             U += u({'p': 1, 'q': 1, 'r': 1, 'start_index': s}, 'random', 1, count=50, cap=8)
         for c in rng.sample(d3, 6):
             U += u(dict(c, opts={'cse': False}), 'random', 1, count=40, cap=8)
+        for c, w in zip(rng.sample(d2, 5) + rng.sample(d3, 11), ('wraps', 'identity') * 8):
+            U += u(dict(c, opts={'wrapper': w}), 'sparse', 1, count=120, cap=4, perm=0.6, min_size=2)
         nshards = 64
     rng.shuffle(U)
     return [{'units': part} for part in gen.split(U, nshards)]
@@ -121,6 +125,22 @@ def run_shard(shard, ctx):
                     if tuple(sorted(kx)) != tuple(kx) or tuple(sorted(ky)) != tuple(ky):
                         ctx.count('permuted_order_cases')
                 res[op] = iso.to_ref(zip(r.keys(), r.values()))
+                if cfg.get('opts', {}).get('wrapper') and op != 'gp':
+                    ctx.count('wrapper_configured_cases')
+                # the two infix operators among the seven, reached through their reflected entry points
+                if op in ('op', 'ip') and ctx.rng.random() < 0.08:
+                    sym = {'op': '^', 'ip': '|'}[op]
+                    a_, b_ = ops.generic_mv(alg, kx, 'a'), ops.generic_mv(alg, ky, 'b')
+                    for label, left in (('list', [a_]), ('callable', (lambda a_=a_: a_)), ('tuple', (a_,))):
+                        st3, r3 = ctx.guarded(20, lambda: eval(f'left {sym} b', {'left': left, 'b': b_}))
+                        if st3 == 'ok':
+                            ctx.count('reflected_entry_point_cases')
+                            r3 = r3[0] if isinstance(r3, (list, tuple)) else r3
+                            if elem_diff(iso.to_ref(zip(r3.keys(), r3.values())), res[op]):
+                                ctx.violation(f'<{label}> {sym} b differs from a {sym} b', cid + ['reflected', label], config=cfg, op=op,
+                                              keys_in=[list(kx), list(ky)])
+                        elif st3 == 'exc':
+                            ctx.note_raised(r3, 'reflected-' + op)
             if ctx.evaluations % 700 < 7 and res:
                 ctx.sample({'config': name, 'keys_a': list(kx), 'keys_b': list(ky), 'ops': sorted(res)})
             cid = [name, 'identities', list(kx), list(ky)]
